@@ -22,7 +22,8 @@ fn models(th: bool) -> Vec<(&'static str, GraphModel)> {
         ("diamond-dup-edge", g(vec![vec![Some(1), Some(2), Some(1)], vec![Some(3)], vec![Some(3)], vec![]], vec![0], 0b1111, vec![at.clone(), (Expectation::Eventually, 0b0100)])),
         ("self-loop", g(vec![vec![Some(0), Some(1)], vec![Some(1), Some(2)], vec![]], vec![0], 0b111, vec![(Expectation::Sometimes, 0b100), (Expectation::Always, 0b011)])),
     ];
-    if th {
+    let _ = th;
+    {
         v.push(("wide5", g(vec![vec![Some(1), Some(2), Some(3)], vec![Some(4)], vec![Some(4), None], vec![Some(4)], vec![Some(0)]], vec![0, 4], 0b11111, vec![at.clone(), (Expectation::Sometimes, 0b10000)])));
         v.push(("tree6", g(vec![vec![Some(1), Some(2)], vec![Some(3), Some(4)], vec![Some(5)], vec![], vec![], vec![]], vec![0], 0b111111, vec![at, (Expectation::Eventually, 0b001000)])));
     }
@@ -36,7 +37,7 @@ fn fp(s: u8) -> u64 {
 // ---- A. Path API ---------------------------------------------------------------------------------
 
 fn path_api(shared: &SharedReport, th: bool) {
-    let maxlen = if th { 5 } else { 4 };
+    let maxlen = if th { 6 } else { 5 };
     for (name, m) in models(th) {
         for init in 0..m.n() as u8 {
             // all action sequences (action indices 0..=3, also out of range) of length <= maxlen
@@ -154,7 +155,7 @@ fn wait_acks(target: usize, ms: u64) -> bool {
 }
 
 fn on_demand(shared: &SharedReport, th: bool, a: &Args) {
-    let maxlen = if th { 4 } else { 3 };
+    let maxlen = if th { 5 } else { 4 };
     let mut idx = 0u64;
     for (name, m) in models(th) {
         let orc = Oracle::new(&m);
@@ -362,7 +363,7 @@ fn project(v: &Value) -> Vec<Value> {
 }
 
 fn http_part(shared: &SharedReport, th: bool, a: &Args) {
-    let maxlen = if th { 5 } else { 4 };
+    let maxlen = if th { 6 } else { 5 };
     for (mi, (name, m)) in models(th).into_iter().enumerate() {
         if (mi as u64) % a.nshards != a.shard {
             continue;
@@ -549,7 +550,7 @@ pub fn run_c19(a: &Args, shared: &SharedReport) {
     {
         let mut r = shared.lock().unwrap();
         r.rule = "Path API: every action sequence (valid and invalid) up to the length bound from every state; on-demand: every request sequence over {check(each state), check(unknown), run_to_completion} up to the length bound; HTTP: every execution up to the length bound and every one-token corruption of it against a live serve() on loopback, then run-to-completion and status; non-trivial = the sequence/request list is non-empty".into();
-        r.bounds = json!({"models": if th {6} else {4}, "path_actions": if th {"<=5"} else {"<=4"}, "on_demand_requests": if th {"<=4"} else {"<=3"}, "http_path_length": if th {"<=5"} else {"<=4"}});
+        r.bounds = json!({"models": 6, "path_actions": if th {"<=6"} else {"<=5"}, "on_demand_requests": if th {"<=5"} else {"<=4"}, "http_path_length": if th {"<=6"} else {"<=5"}});
     }
     if a.shard == 0 {
         path_api(shared, th);
